@@ -15,6 +15,7 @@ import (
 	"fmt"
 	"os"
 	"path/filepath"
+	"runtime/debug"
 	"sort"
 	"strconv"
 	"strings"
@@ -263,7 +264,7 @@ func Run[C any](t *testing.T, prop, rule string, o Opts, gen func(*rapid.T) C, i
 			_ = os.WriteFile(filepath.Join(outDir(), fmt.Sprintf("%s.%s.current.json", prop, rule)), raw, 0o644)
 		}
 		wedgeEnter(prop, rule, raw, st, start)
-		v := interp(c)
+		v := runInterp(interp, c)
 		wedgeLeave()
 		mu.Lock()
 		st.record(raw, v)
@@ -338,6 +339,25 @@ func Run[C any](t *testing.T, prop, rule string, o Opts, gen func(*rapid.T) C, i
 	})
 }
 
+// runInterp runs the interpreter and turns a panic that escapes it on the calling goroutine
+// (code under test called directly by the interpreter, outside any recover of the harness)
+// into a failing verdict, so that the case is written as a replay file, shrunk, and reported
+// as a VIOLATION instead of ending as rapid's own "panic after N tests" (no replay file,
+// which the driver could only report as inconclusive).
+func runInterp[C any](interp func(C) Verdict, c C) (v Verdict) {
+	defer func() {
+		if p := recover(); p != nil {
+			stack := string(debug.Stack())
+			if len(stack) > 3000 {
+				stack = stack[:3000] + "..."
+			}
+			v = Verdict{NonTrivial: true, Classes: []string{"panic-escaped-the-interpreter"},
+				Fail: fmt.Sprintf("panic escaped the interpreter: %v\n%s", p, stack)}
+		}
+	}()
+	return interp(c)
+}
+
 func replayOne[C any](t *testing.T, prop, rule, path string, st *ruleStats, judge func(C, func(string))) {
 	b, err := os.ReadFile(path)
 	if err != nil {
@@ -369,7 +389,7 @@ func Enumerate[C any](t *testing.T, prop, rule string, each func(yield func(C) b
 	judge := func(c C, fatal func(string)) {
 		raw, _ := json.Marshal(c)
 		wedgeEnter(prop, rule, raw, st, start)
-		v := interp(c)
+		v := runInterp(interp, c)
 		wedgeLeave()
 		st.record(raw, v)
 		if v.Fail != "" && !(v.Known != "" && KnownOpen(prop, v.Known)) {
@@ -398,7 +418,7 @@ func Enumerate[C any](t *testing.T, prop, rule string, each func(yield func(C) b
 		}
 		raw, _ := json.Marshal(c)
 		wedgeEnter(prop, rule, raw, st, start)
-		v := interp(c)
+		v := runInterp(interp, c)
 		wedgeLeave()
 		st.record(raw, v)
 		if v.Fail == "" {
@@ -442,7 +462,7 @@ func Fuzz[C any](f *testing.F, prop, rule string, seeds [][]byte, gen func(*rapi
 		if err != nil {
 			panic("kit: case not serialisable: " + err.Error())
 		}
-		v := interp(c)
+		v := runInterp(interp, c)
 		mu.Lock()
 		st.record(raw, v)
 		n++
